@@ -21,6 +21,7 @@ Definition ev_code (e : event) : N * N :=
   match e with
   | EImport s => (0, s) | ESkip s => (1, s) | EOrphan s => (2, s)
   | EDup s => (3, s) | ENothing s => (4, s) | EFinal s => (5, s)
+  | EOrphanPruned s => (6, s)
   end.
 
 Definition q_code (q : qreq) : N * N :=
